@@ -146,4 +146,31 @@ def applyTok (pre mod tokC : Addr) (w : TW) (o : TokOp) : TW :=
 
 def runTokH (pre mod tokC : Addr) (ops : List TokOp) (w : TW) : TW := ops.foldl (applyTok pre mod tokC) w
 
+/-! ## round 4 — what the token-leg translator passes over, as data
+
+`go/extract/c10tok.go` emits an op for every token / coin movement of `handlerERC20Token` (helpers inlined) and used to
+pass over everything else silently (a trusted classification).  Every statement / call so passed over is now printed in
+full into `Gen.C10Tok.erc20LegSkipped`, tagged with the reason; `Props/C10.lean` states that the list is literally the
+reviewed one below and that only the reviewed reasons occur. -/
+
+/-- the passed-over statements as reviewed: the token-pair lookup and its not-found return (nothing has moved yet), reading
+the pair's denom, the construction of the two ERC-20 call objects (issuer = precompile address for `transferFrom`, erc20
+module for `burn`), the two `if err != nil { return err }` tests of calls assigned on the previous line, the two final returns -/
+def reviewedErc20LegSkipped : List (String × String) := [
+  ("read", "c.erc20Keeper.GetTokenPairByAddress(ctx, token)"),
+  ("not-found-return", "if !found { return sdk.Coin{}, fmt.Errorf(\"token pair not found: %s\", token.String()) }"),
+  ("read", "tokenPair.GetDenom()"),
+  ("erc20-call-object", "erc20Call := contract.NewERC20Call(evm, crosschaintypes.GetAddress(), token, 0)"),
+  ("erc20-call-object", "erc20Call := contract.NewERC20Call(evm, c.erc20Keeper.ModuleAddress(), tokenPair.GetERC20Contract(), 0)"),
+  ("error-test", "if err != nil { return err }"),
+  ("error-test", "if err != nil { return err }"),
+  ("return", "return nil"),
+  ("return", "return sdk.NewCoin(baseDenom, sdkmath.NewIntFromBigInt(amount)), nil")]
+
+/-- reasons for which a statement may be passed over: a keeper / pair READ (by name), a view of the ERC-20 (`balanceOf`, …),
+the construction of an ERC-20 call object, the error test of the previous line, the `!found` return, a return of nil / of
+the coin.  NOT accepted: a call that does not receive the ctx (`no-ctx`), a bare expression, a non-call assignment, any other
+statement kind -/
+def skipReasons : List String := ["read", "erc20-view", "erc20-call-object", "error-test", "not-found-return", "return"]
+
 end FxVerif.Model.C10Tok
